@@ -196,6 +196,55 @@ def rand_selector(rng, plate, forms=None):
     return sel, idx, shape
 
 
+def subslice(rng, plate, sel, idx, shape):
+    """A slice of a slice, `plate[sel][item]`: 0-based python/numpy semantics relative to the parent selection.
+    The expected wells come from applying the same index expression to a grid of (i, j) pairs with numpy - not from the
+    slicer.  -> (slicer, index list, shape, description) or None."""
+    import numpy
+    parent = plate[sel]
+    if len(shape) == 1:
+        n = shape[0]
+        if n < 2:
+            return None
+        a = rng.randrange(0, n - 1)
+        b = rng.randrange(a + 1, n + 1)
+        item = slice(a, b)
+        exp = idx[a:b]
+        try:
+            return parent[item], exp, (len(exp),), f'{sel!r}[{a}:{b}]'
+        except Exception:
+            return None
+    h, w = shape
+    if h * w < 2:
+        return None
+    grid = numpy.empty((h, w), dtype=object)
+    for k, ij in enumerate(idx):
+        grid[k // w, k % w] = ij
+
+    def axis(n):
+        r = rng.random()
+        if r < 0.3:
+            k = rng.randrange(n)
+            return k, slice(k, k + 1)
+        a = rng.randrange(0, n)
+        b = rng.randrange(a + 1, n + 1)
+        st = rng.choice([None, None, 2]) if n > 2 else None
+        a_ = None if (a == 0 and rng.random() < 0.5) else a
+        b_ = None if (b == n and rng.random() < 0.5) else b
+        return slice(a_, b_, st), slice(a_, b_, st)
+    ri, rs = axis(h)
+    ci, cs = axis(w)
+    item = (ri, ci) if rng.random() < 0.8 or not isinstance(ci, slice) else (ri, ci)
+    sub = grid[rs, cs]
+    exp = [tuple(x) for x in sub.flatten()]
+    if not exp:
+        return None
+    try:
+        return parent[item], exp, tuple(sub.shape), f'{sel!r}[{item!r}]'
+    except Exception:
+        return None
+
+
 def rect_selector(rng, plate, r0, r1, c0, c1):
     rows, cols = list(plate.row_names), list(plate.column_names)
     return (slice(_atom(rng, rows, r0), _atom(rng, rows, r1)), slice(_atom(rng, cols, c0), _atom(rng, cols, c1)))
@@ -299,6 +348,9 @@ class World:
                 base = rng.choice(['L', 'L', 'g', 'mol'])
             else:
                 base = rng.choice(['g', 'g', 'mol', 'L'])
+            if R.per(s, base) == 0:
+                # e.g. a zero-volume solid (default_solid_density: inf) cannot be specified by volume
+                base = 'U' if s.is_enzyme() else 'g'
             # target volume share
             v_l = scale * rng.uniform(0.02, 0.5)
             perL = R.per(s, 'L')
@@ -344,6 +396,20 @@ class World:
             self.objs[name] = res
             self.keep(res)
         return res
+
+    def slice_or_sub(self, plate, sel, idx, shape, p_sub=0.15):
+        """`plate[sel]`, or - sometimes - a slice *of that slice*; the wells the harness expects to be addressed are
+        registered for the monitors (reference addressing from the original selector cannot describe a sub-slice)."""
+        if self.rng.random() < p_sub and len(idx) > 1:
+            r = subslice(self.rng, plate, sel, idx, shape)
+            if r is not None:
+                sl, idx2, shape2, desc = r
+                if len(M.addr_override) > 400:
+                    M.addr_override.clear()
+                M.addr_override[id(sl)] = (idx2, shape2, sl)
+                M.bucket('C07/subslice')
+                return sl, idx2, shape2, desc
+        return plate[sel], idx, shape, sel_json(sel)
 
     # ---- request sizing
     def pick_unit(self, contents, allow_zero_measure=0.05):
@@ -444,12 +510,12 @@ class World:
         dst = dst or rng.choice(pn)
         s, p = self.objs[src], self.objs[dst]
         sel, idx, shape = rand_selector(rng, p, forms)
+        use_plate = sel == slice(None) and rng.random() < 0.5
+        target, idx, shape, seldesc = (p, idx, shape, None) if use_plate else self.slice_or_sub(p, sel, idx, shape)
         base = base or self.pick_unit(s.contents)
         room = min(self.room_L(p.wells[ij]) for ij in idx)
         q, mode = self.size_request(s.contents, base, room, len(idx), mode)
-        use_plate = sel == slice(None) and rng.random() < 0.5
-        step = {'op': 'transfer', 'src': [src, None], 'dst': [dst, None if use_plate else sel_json(sel)], 'q': q, 'mode': mode}
-        target = p if use_plate else p[sel]
+        step = {'op': 'transfer', 'src': [src, None], 'dst': [dst, seldesc], 'q': q, 'mode': mode}
         res, exc = self.do('Plate.transfer', step, lambda: pp.Plate.transfer(s, target, q))
         if res is not None:
             self.objs[src], self.objs[dst] = res
@@ -466,6 +532,7 @@ class World:
         dst = rng.choice(cn)
         p, d = self.objs[src], self.objs[dst]
         sel, idx, shape = rand_selector(rng, p, forms)
+        sliced, idx, shape, seldesc = self.slice_or_sub(p, sel, idx, shape)
         wells = [p.wells[ij] for ij in idx]
         nonempty = [w for w in wells if any(a > 0 for a in w.contents.values())]
         ref_w = min(nonempty or wells, key=lambda w: R.measure(w.contents, 'L'))
@@ -475,9 +542,9 @@ class World:
         fake = ref_w.contents if min(ms) > 0 else {}
         room = self.room_L(d) / max(len(idx), 1)
         q, mode = self.size_request(fake if fake else ref_w.contents, base, room, 1, mode)
-        use_plate = sel == slice(None) and rng.random() < 0.3
-        step = {'op': 'transfer', 'src': [src, None if use_plate else sel_json(sel)], 'dst': [dst, None], 'q': q, 'mode': mode}
-        source = p if use_plate else p[sel]
+        use_plate = sel == slice(None) and seldesc == sel_json(sel) and rng.random() < 0.3
+        step = {'op': 'transfer', 'src': [src, None if use_plate else seldesc], 'dst': [dst, None], 'q': q, 'mode': mode}
+        source = p if use_plate else sliced
         res, exc = self.do('Container.transfer', step, lambda: pp.Container.transfer(source, d, q))
         if res is not None:
             self.objs[src], self.objs[dst] = res
@@ -711,11 +778,11 @@ class World:
             else:
                 what = rng.choice([R.SOLID, R.LIQUID, R.ENZYME])
         sel = None
+        obj, seldesc = o, None
         if isinstance(o, pp.Plate) and (partial if partial is not None else rng.random() < 0.6):
-            sel, idx, _ = rand_selector(rng, o)
-        step = {'op': 'remove', 'dst': [target, sel_json(sel) if sel is not None else None],
-                'what': what if isinstance(what, int) else what.name}
-        obj = o[sel] if sel is not None else o
+            sel, idx, shp = rand_selector(rng, o)
+            obj, idx, shp, seldesc = self.slice_or_sub(o, sel, idx, shp)
+        step = {'op': 'remove', 'dst': [target, seldesc], 'what': what if isinstance(what, int) else what.name}
         res, exc = self.do('remove', step, lambda: obj.remove(what))
         if res is not None:
             self.objs[target] = res
@@ -733,9 +800,11 @@ class World:
         solvent = rng.choice(liquids(self.subs)) if rng.random() < 0.9 else rng.choice(self.subs)
         base = base or rng.choice(['L', 'L', 'g', 'mol'])
         sel = None
+        sub_obj, seldesc = None, None
         if isinstance(o, pp.Plate):
             if partial if partial is not None else rng.random() < 0.6:
-                sel, idx, _ = rand_selector(rng, o)
+                sel, idx, shp = rand_selector(rng, o)
+                sub_obj, idx, shp, seldesc = self.slice_or_sub(o, sel, idx, shp)
             else:
                 idx = [(i, j) for i in range(o.wells.shape[0]) for j in range(o.wells.shape[1])]
             wells = [o.wells[ij] for ij in idx]
@@ -769,12 +838,13 @@ class World:
         else:
             val = rng.choice([0.0, -abs(cur) - 1e-6])
         q = spell(rng, val, base, exact=(mode in ('exact_cap', 'at_current')))
-        step = {'op': 'fill_to', 'dst': [target, sel_json(sel) if sel is not None else None],
-                'solvent': solvent.name, 'q': q, 'mode': mode}
-        obj = o[sel] if sel is not None else o
+        step = {'op': 'fill_to', 'dst': [target, seldesc], 'solvent': solvent.name, 'q': q, 'mode': mode}
+        obj = sub_obj if sub_obj is not None else o
         res, exc = self.do('fill_to', step, lambda: obj.fill_to(solvent, q))
         if res is not None:
-            self.objs[target] = res
+            conts = [res] if isinstance(res, pp.Container) else list(res.wells.flatten())
+            if all(math.isfinite(a) for c_ in conts for a in c_.contents.values()):
+                self.objs[target] = res       # (a non-finite outcome - recorded finding KF03 - is not carried forward)
             self.keep(res)
         return res
 
